@@ -386,7 +386,7 @@ func discharge(obls []*Obligation, dir string, timeoutS int, workers int) {
 		}
 	}
 	for _, o := range obls {
-		if o.Status == "unknown" && !o.Cover && o.InBaseline {
+		if o.Status == "unknown" && !o.Cover {
 			if stillUnknown >= 2 {
 				o.Detail = "not retried (the check already fails): " + o.Detail
 				continue
